@@ -14,6 +14,7 @@ RULE = ("every case states one physical composition and is run twice, once with 
         "fraction (harness conversion): flux solver, permeate-composition and separation-factor helpers, ideal diffusion curve and its "
         "metrics (separation factor, PSI, selectivity, permeances), 4 process models (basis of the initial feed varied on a fixed curve set), "
         "non-ideal diffusion curve, and measurement extraction from the same curve set expressed in the two bases. "
+        "Also: hand-built curves and tabulated curves (DiffusionCurve.from_frame) with all-mass, all-mole and mixed rows. "
         "non-trivial = M1/M2 outside [0.8,1.25] and every varied fraction in [0.02,0.98] (the two bases differ by > 1e-3) and the calls returned; "
         "distinct = SHA-1 of the case JSON")
 ASSUMPTIONS = ["relative tolerance 1e-9 (inputs differ by the rounding of the conversion), process/solver twins compared only when both used the same "
